@@ -64,11 +64,14 @@ DIRECTIVE = re.compile(r"^%(\w+)\s*(.*)$")
 
 def parse_vc(path):
     """contract unit file -> dict(req, prelude, items{name: {spec, body_start, loops{k:{spec,body_start,body_end,after}}}}, trusted, probes)"""
-    vc = dict(req=[], prelude=[], items={}, trusted=[], probes=[], order=[])
+    vc = dict(req=[], prelude=[], items={}, trusted=[], probes=[], order=[], uses=[])
     cur = None   # (list to append lines to)
     item = None
     for raw in open(path).read().splitlines():
         m = DIRECTIVE.match(raw)
+        if m and m.group(1) == "use":
+            vc["uses"].append("use " + m.group(2).strip().rstrip(";") + ";")
+            continue
         if m and m.group(1) == "import":
             sub = parse_vc(os.path.join(VERIF, "contracts", m.group(2).strip() + ".vc"))
             vc["req"] += [r for r in sub["req"] if r not in vc["req"]]
@@ -77,6 +80,7 @@ def parse_vc(path):
                 v["imported_from"] = m.group(2).strip()
                 vc["items"].setdefault(k, v)
             vc["trusted"] += sub["trusted"]
+            vc["uses"] += [u for u in sub["uses"] if u not in vc["uses"]]
             cur = None
             continue
         if m and m.group(1) in ("req", "prelude", "fn", "method", "body_start", "body_end", "loop", "trusted", "probe", "end", "attr"):
@@ -199,7 +203,7 @@ def assemble(k2v_out, vc, unit):
     lines = []
     lines += ["// generated by /verif/lib/vrun/verus.py for unit %s — do not edit" % unit,
               "#![allow(unused_imports, unused_variables, unused_mut, unused_assignments, dead_code, unused_parens, unused_braces, unreachable_code, non_snake_case)]",
-              "use vstd::prelude::*;", "use vstd::slice::*;", "use vstd::string::*;", "", "verus! {", ""]
+              "use vstd::prelude::*;", "use vstd::slice::*;", "use vstd::string::*;"] + vc["uses"] + ["", "verus! {", ""]
     lines += prelude.splitlines()
     lines += ["", "// ---- unit prelude (" + unit + ".vc) ----"] + vc["prelude"] + [""]
     fn_lines = []
